@@ -940,3 +940,172 @@ def replay_proba_search(p):
             bad.append("key %r: %s, scheme %r" % (key, show(o), want))
     return {"reproduced": bool(bad), "expected": "top 32 bits of MD5(UTF-8(key)) / 2^32 for every key",
             "observed": "; ".join(bad[:3]) or "agrees on the witness and %d tricky keys" % len(TRICKY_KEYS)}
+
+
+
+def glue_corpus():
+    """(name, text, is_trivia_variant_of) -- texts at the seams of parse_source: odd line ends and blanks between tokens
+    and inside literals, sentinels, text after the closing brace, look-alikes of comments, case, normal forms"""
+    base = 'def e {\n salt: "S"\n splitters: uid\n if uid == "k" { return "A" weighted 1, "B" weighted 2 }\n else { return 7 weighted 1 }\n}'
+    out = [("base", base, None)]
+    seps = {"crlf": "\r\n", "cr": "\r", "vt": "\x0b", "ff": "\x0c", "fs": "\x1c", "gs": "\x1d", "rs": "\x1e", "us": "\x1f",
+            "nel": "\x85", "nbsp": "\xa0", "ls": "\u2028", "ps": "\u2029", "tab": "\t", "em-space": "\u2003",
+            "ideographic-space": "\u3000"}
+    for n, c in seps.items():
+        out.append(("sep-" + n, base.replace("\n", c), "base"))
+    out.append(("lead-blank", " \n\t" + base, "base"))
+    out.append(("trail-blank", base + " \n\n", "base"))
+    out.append(("trail-comment", base + "\n// the end", "base"))
+    out.append(("trail-comment-crlf", base + "\r\n// the end\r\n", "base"))
+    out.append(("line-comments", base.replace("\n", " // note\n"), "base"))
+    out.append(("line-comment-backslash", base.replace("\n", " // note \\\n", 1), "base"))
+    out.append(("block-comments", base.replace("\n", " /* note */\n"), "base"))
+    out.append(("block-comment-multiline", base.replace("\n", "\n/* a\n * b\n */\n", 1), "base"))
+    out.append(("comment-with-quote", base.replace("\n", " // it's \"quoted\n", 1), "base"))
+    out.append(("comment-with-open", base.replace("\n", " // see /* above\n", 1), "base"))
+    out.append(("comment-star-slash", base.replace("\n", " /* a // b */\n", 1), "base"))
+    # literal contents that a normalising front end would alter
+    contents = {"crlf": "a\r\nb".replace("\n", ""), "cr": "a\rb", "vt": "a\x0bb", "ff": "a\x0cb", "fs": "a\x1cb", "nel": "a\x85b",
+                "ls": "a\u2028b", "tab": "a\tb", "2sp": "a  b", "lead": " a", "trail": "a ", "upper": "Ab", "nfd": "cafe\u0301",
+                "nfkc": "\ufb01", "bom": "\ufeffa", "nul": "a\x00b", "sub": "a\x1ab", "end": "__END__", "slashes": "a//b",
+                "block": "a/*b*/c", "open": "a/*b", "close": "a*/b", "hash": "a#b", "semi": "a;b", "bslash": "a\\", "bs-n": "a\\nb",
+                "brace": "}", "quote": "it's", "kw": "else if", "nbsp": "a\xa0b", "zero-width": "a\u200bb", "expandtabs": "\ta\t"}
+    for n, c in contents.items():
+        q = '"' if '"' not in c else "'"
+        out.append(("salt-" + n, base.replace('"S"', q + c + q), None))
+        out.append(("label-" + n, base.replace('"A"', q + c + q), None))
+        out.append(("operand-" + n, base.replace('"k"', q + c + q), None))
+    # not programs
+    bad = {"after-brace-id": base + " x", "after-brace-brace": base + " }", "after-brace-def": base + "\n" + base,
+           "after-brace-nul": base + "\x00", "after-brace-sub": base + "\x1a", "after-brace-number": base + " 1",
+           "after-brace-string": base + ' "note"', "after-end-marker": base + "\n__END__\nnotes",
+           "bom-first": "\ufeff" + base, "nul-first": "\x00" + base, "missing-brace": base[:-1], "missing-brace-blank": base[:-1] + "\n",
+           "open-comment": base + " /* never closed", "open-comment-mid": base.replace("\n", " /* open\n", 1),
+           "comment-eats-brace": base[:-1] + "// }", "upper-kw": base.replace("def", "DEF", 1), "upper-return": base.replace("return", "RETURN"),
+           "hash-comment": base.replace("\n", " # note\n", 1), "semicolons": base.replace("\n", ";\n"), "zero-width-sep": base.replace("\n", "\u200b"),
+           "illegal-at-end": base + " $", "illegal-at-end-2": base + "\n@", "lone-quote-end": base + ' "', "empty": "", "blank": " \n",
+           "only-comment": "// nothing", "newline-in-string": base.replace('"S"', '"S\nT"'), "backslash-continuation": base.replace("salt:", "salt:\\\n"),
+           "illegal-after-crlf": base + "\r\n$"}
+    for n, t in bad.items():
+        out.append(("bad-" + n, t, None))
+    return out
+
+
+def _glue_reference(text):
+    """-> ("reject", why) | ("accept", [(class, value)])"""
+    from vf.ref import tokens as rt
+    from vf.cfgsym import cyk
+    try:
+        toks = rt.py_tokenize(text)
+    except rt.RefLexError as e:
+        return ("reject", "lexical error at %s" % (e.args[0],))
+    if not cyk.recognize(cyk.ref_grammar(), [t[0] for t in toks]):
+        return ("reject", "not a sentence")
+    return ("accept", [(t[0], t[2]) for t in toks])
+
+
+def _leaves(v, strs, nums):
+    import enum
+    if isinstance(v, enum.Enum) or v is None or isinstance(v, bool):
+        return
+    if isinstance(v, str):
+        strs.append(v)
+    elif isinstance(v, (int, float)):
+        nums.append(float(abs(v)))
+    elif isinstance(v, dict):
+        for x in v.values():
+            _leaves(x, strs, nums)
+    elif isinstance(v, (list, tuple)):
+        for x in v:
+            _leaves(x, strs, nums)
+
+
+@register("glue_search")
+def replay_glue_search(p):
+    """parse_source against the reference lexer + grammar on the corpus of seam texts; reports the first discrepancy of a
+    class the calling property is about"""
+    import contextlib
+    import io
+    from pyab_experiment.utils.wraper_functions import parse_source
+    classes = set(p.get("classes") or [])
+    corpus = glue_corpus()
+    real = {}
+    for name, text, _ in corpus:
+        try:
+            with contextlib.redirect_stdout(io.StringIO()), contextlib.redirect_stderr(io.StringIO()):
+                a = parse_source(text)
+            real[name] = ("reject", "returned None") if a is None else ("accept", a.dict())
+        except Exception as e:
+            real[name] = ("reject", type(e).__name__)
+    found = []
+    for name, text, variant_of in corpus:
+        ref = _glue_reference(text)
+        got = real[name]
+        if ref[0] == "reject" and got[0] == "accept":
+            found.append(("accepts-ill-formed", "%s: accepted although the reference rejects it (%s): %r" % (name, ref[1], text[-40:])))
+        elif ref[0] == "accept" and got[0] == "reject":
+            cls = "rejects-well-formed-trivia" if variant_of else "rejects-well-formed"
+            found.append((cls, "%s: rejected (%s) although it is a sentence: %r" % (name, got[1], text[:60])))
+            if not variant_of:
+                found.append(("literal-changed", "%s: a text whose only peculiarity is the content of a literal is rejected (%s)" % (name, got[1])))
+        elif ref[0] == "accept":
+            rs = sorted(v for c, v in ref[1] if c in ("ID", "STRING_LITERAL"))
+            rn = sorted(float(v) for c, v in ref[1] if c in ("NON_NEG_INTEGER", "NON_NEG_FLOAT"))
+            gs, gn = [], []
+            _leaves(got[1], gs, gn)
+            if sorted(gs) != rs or sorted(gn) != rn:
+                diff = [x for x in rs if x not in gs] or [x for x in gs if x not in rs]
+                found.append(("literal-changed", "%s: literal values differ from the text: %r" % (name, diff[:2])))
+            if variant_of and real[variant_of][0] == "accept" and repr(got[1]) != repr(real[variant_of][1]):
+                found.append(("trivia-changes-meaning", "%s: same tokens as %s, different tree" % (name, variant_of)))
+    hits = [f for f in found if f[0] in classes] if classes else found
+    return {"reproduced": bool(hits), "expected": "parse_source agrees with the reference lexer and grammar on %d seam texts" % len(corpus),
+            "observed": "; ".join("%s" % h[1] for h in hits[:2]) or "no discrepancy of the classes %s (others: %d)" % (sorted(classes), len(found))}
+
+
+@register("glue_history")
+def replay_glue_history(p):
+    """state carried from one parse_source call to the next: every text must be judged as in a fresh process, whatever
+    was parsed (and rejected) before it"""
+    import contextlib
+    import io
+    from pyab_experiment.utils.wraper_functions import parse_source
+    classes = set(p.get("classes") or [])
+    ok = 'def e { return "a" weighted 1 }'
+    poisons = ['def x { salt: "s" /* open', 'def x { /*', '/* open', ok + ' /* open', 'def /* x', 'def x { return "a" /* weighted 1 }',
+               'def x { salt: "unclosed', 'def x { $', ok + ' x', '']
+    victims = [("ill", 'junk */ ' + ok), ("ill", '* header */ ' + ok), ("ill", ok + ' /* -- */ ' + ok.replace('"a"', '"b"')),
+               ("ill", '*/ ' + ok), ("ill", 'x */'), ("well", ok), ("well", '/* h */ ' + ok), ("well", 'def e { salt: "s" /* c */ return "a" weighted 1 }'),
+               ("well", ok.replace('"a"', '"a */ b"'))]
+
+    def verdict(text):
+        try:
+            with contextlib.redirect_stdout(io.StringIO()), contextlib.redirect_stderr(io.StringIO()):
+                a = parse_source(text)
+            return ("reject", "None") if a is None else ("accept", repr(a.dict()))
+        except Exception as e:
+            return ("reject", type(e).__name__)
+    clean = {}
+    for kind, v in victims:
+        clean[v] = verdict(v)
+        ref = _glue_reference(v)
+        if (ref[0] == "accept") != (clean[v][0] == "accept"):
+            return {"reproduced": ("accepts-ill-formed" if kind == "ill" else "rejects-well-formed") in classes or not classes,
+                    "expected": "agreement with the reference", "observed": "before any history: %r judged %s, reference %s" % (v, clean[v][0], ref[0])}
+    found = []
+    for po in poisons:
+        for kind, v in victims:
+            verdict(po)
+            got = verdict(v)
+            if got != clean[v]:
+                if kind == "ill" and got[0] == "accept":
+                    found.append(("accepts-ill-formed", "after parse_source(%r) was rejected, %r is accepted" % (po, v)))
+                elif kind == "well" and got[0] == "reject":
+                    found.append(("rejects-well-formed", "after parse_source(%r) was rejected, the sentence %r is rejected (%s)" % (po, v, got[1])))
+                    found.append(("rejects-well-formed-trivia", found[-1][1]))
+                else:
+                    found.append(("trivia-changes-meaning", "after parse_source(%r), %r parses to a different tree" % (po, v)))
+                    found.append(("literal-changed", found[-1][1]))
+    hits = [f for f in found if f[0] in classes] if classes else found
+    return {"reproduced": bool(hits), "expected": "every text judged as in a fresh process",
+            "observed": "; ".join(h[1] for h in hits[:2]) or "no history changes a verdict (classes %s, others %d)" % (sorted(classes), len(found))}
